@@ -372,17 +372,31 @@ class Assume:
             return [env]
         return [env]
 
+    def _input_cells(self, env):
+        """cells of the canonical input (and what was derived from them) in this environment"""
+        out = set()
+        for f in env.facts:
+            if isinstance(f, tuple) and f and f[0] == 'input':
+                s_ = env.find_sid(f[1])
+                if s_ is not None:
+                    out.update(c for c in s_.cells() if not isinstance(c, frozenset))
+        return out
+
     def assume_str_eq(self, a, b, eq, env):
         S = self.ctx.S
         cov = [c for c in list(a.cells()) + list(b.cells()) if not isinstance(c, frozenset)]
         if cov:
-            env.facts = env.facts | {('cov', 'compare', '') + tuple(cov)}
             gen = set()
             for f in env.facts:
                 if isinstance(f, tuple) and f and f[0] == 'gen':
                     gen.update(f[1:])
             ca = [c for c in a.cells() if not isinstance(c, frozenset)]
             cb = [c for c in b.cells() if not isinstance(c, frozenset)]
+            # a comparison checks the characters it reads when the other side is a constant (a component test) or contains
+            # generated check characters; comparing the input with its own characters (number == number[::-1]) checks nothing
+            one_const = S.const_value(env, a) is not None or S.const_value(env, b) is not None
+            if one_const or any(c in gen for c in ca + cb) or set(ca).isdisjoint(cb) and not (set(ca) | set(cb)) <= self._input_cells(env):
+                env.facts = env.facts | {('cov', 'compare', '') + tuple(cov)}
             if ca and cb and all(c in gen for c in ca) and all(c in gen for c in cb):
                 env.facts = env.facts | {('vacuous', self.ctx.stack[-1][0] if self.ctx.stack else '?', self.ctx.stack[-1][1] if self.ctx.stack else '?')}
         if eq:
